@@ -225,6 +225,18 @@ class GenElem(Elem):
         return bool(fn(lc, rc))
 
     def binop(self, op, l, r, node):
+        if isinstance(op, (ast.BitOr, ast.BitAnd)):
+            f2 = (lambda p, q: bool(p) or bool(q)) if isinstance(op, ast.BitOr) else (lambda p, q: bool(p) and bool(q))
+
+            def items(v, n):
+                if isinstance(v, KTable) and all(isinstance(b, bool) for b in v.items):
+                    return v.items
+                if isinstance(v, bool):
+                    return [v] * n
+                self.err("| / & on non-boolean values", node)
+            n = len(l.items) if isinstance(l, KTable) else len(r.items) if isinstance(r, KTable) else 1
+            out = [f2(p, q) for p, q in zip(items(l, n), items(r, n))]
+            return KTable(out) if isinstance(l, KTable) or isinstance(r, KTable) else out[0]
         for k, fn in ((ast.Add, lambda p, q: p + q), (ast.Sub, lambda p, q: p - q), (ast.Mult, lambda p, q: p * q),
                       (ast.Div, lambda p, q: p / q), (ast.Pow, lambda p, q: p ** q)):
             if isinstance(op, k):
@@ -353,6 +365,15 @@ class GenElem(Elem):
             return v
         if short == "maximum" and len(args) == 2:
             return lift(lambda p, q: sp.Max(p, q), *args)
+        if short == "where" and len(args) == 3:
+            c, yes, no = args
+            if isinstance(c, bool):
+                return yes if c else no
+            if isinstance(c, KTable) and all(isinstance(b, bool) for b in c.items):
+                def pick(v, k):
+                    return v.items[k] if isinstance(v, KTable) else v
+                return KTable([pick(yes, k) if b else pick(no, k) for k, b in enumerate(c.items)])
+            self.err("np.where on a non-constant condition", e)
         if short == "where" and len(args) == 1:
             v = args[0]
             if isinstance(v, KTable) and all(isinstance(b, bool) for b in v.items):
